@@ -170,6 +170,9 @@ def oracle(plan, out):
         cid = c["cid"]
         conn = R.connect(cid.split("/")[0])
         if conn is None:
+            # never even connected (no record at all): only possible if the run ended before the canary started
+            if R.res.get("end_us", 0) > c["at"] * 1000 + BOUND_US:
+                v("canary-not-served", "%s/%s" % (c["phase"], c["lk"]), "canary %s on %s (%s the API calls, started %.3fs) never completed its connection" % (cid, c["lk"], c["phase"], c["at"] / 1e3))
             continue
         rep = R.op_by_label(cid, "reply")
         if conn.get("connect") != "ok" or rep is None or not reply_ok(c["proto"], rep):
